@@ -23,12 +23,12 @@ func drivers(quick bool) []conc.Driver {
 		{Chunk: 1, Concurrent: true, Cycles: []int{3}},
 		{Chunk: 2, Concurrent: true, Cycles: []int{4}},
 		{Chunk: 2, Concurrent: true, Cycles: []int{5}},
+		{Chunk: 1, Concurrent: true, Cycles: []int{2, 2}}, // the sorter is used again after Clear
+		{Chunk: 2, Concurrent: true, Cycles: []int{3, 3}},
 	}
 	if !quick {
 		scs = append(scs,
 			mdrv.Scenario{Chunk: 1, Concurrent: true, Cycles: []int{4}},
-			mdrv.Scenario{Chunk: 1, Concurrent: true, Cycles: []int{2, 2}},
-			mdrv.Scenario{Chunk: 2, Concurrent: true, Cycles: []int{3, 3}},
 			mdrv.Scenario{Chunk: 3, Concurrent: true, Cycles: []int{7}},
 		)
 	}
